@@ -40,6 +40,7 @@ type VConn struct {
 	nextMbox, nextMsg int
 	Mailboxes         map[imap.MailboxID][]string
 	State             connector.IMAPState // handed over by gluon at Init
+	WideIDs           bool                // mailbox ids of fixed width (see CreateMailbox)
 	Messages          map[imap.MessageID]*VMsg
 	Visibility        map[imap.MailboxID]imap.MailboxVisibility
 
@@ -116,6 +117,11 @@ func (c *VConn) CreateMailbox(_ context.Context, _ connector.IMAPStateWrite, nam
 	}
 	c.nextMbox++
 	id := imap.MailboxID(fmt.Sprintf("rb%d", c.nextMbox))
+	if c.WideIDs {
+		// fixed width: the order of the remote ids as strings is the order of creation (gluon translates lists of remote
+		// ids with one SQL query whose result comes back in index order)
+		id = imap.MailboxID(fmt.Sprintf("rb%07d", c.nextMbox))
+	}
 	c.Mailboxes[id] = append([]string{}, name...)
 	return imap.Mailbox{ID: id, Name: name, Flags: c.Flags, PermanentFlags: c.PermFlags, Attributes: c.Attrs}, nil
 }
